@@ -572,6 +572,19 @@ def run(mon, spec):
         p = gen_civil(rng)
         mon.begin("forms", list(p))
         case_forms(mon, *p)
+    # every civil day of the reform year and of one other year per shard, in
+    # every input form (date and datetime objects included), at 0h and at a
+    # time of day that depends on the date
+    for yy in (1582, (1583, 1581, 1584, 1600, 1700, 2000, 1, 100, 1500, 4,
+                      1900, 2024, 9999, 1000, 400, 2100)[spec["idx"] % 16]):
+        if yy == 1582 and spec["idx"] % 4:
+            continue
+        for m_, d_, _j0, _wd, _doy in dc.walk_year(yy):
+            hh = (d_ * 7 + m_) % 24
+            for p in ((yy, m_, d_, 0, 0, 0),
+                      (yy, m_, d_, hh, (d_ * 13) % 60, 250000 * (m_ % 4))):
+                mon.begin("forms", list(p))
+                case_forms(mon, *p)
     for _ in range(spec["n_arith"]):
         j, _c = gen_jde(rng)
         r = rng.random()
